@@ -192,6 +192,8 @@ func init() {
 		fr.i.path.permuteTwo = args[0].(bool)
 		return nil
 	}
+	// symxAtExit(f): native replay only (clean-up after the last case); nothing to do in the engine
+	harnessAPI["symxAtExit"] = func(fr *frame, args []value) value { return nil }
 	// symxPanicMode("ignore"|"violation")
 	harnessAPI["symxPanicMode"] = func(fr *frame, args []value) value {
 		fr.i.path.panicMode = argString(fr, args[0])
